@@ -23,6 +23,7 @@ structure St where
   nonMatching : List Nat := []
   sorted : List Nat := []           -- version sets with cached sorted list
   sortedUnion : List Nat := []      -- unions with cached sorted list
+  inflightDeps : List Nat := []     -- solvables whose `get_dependencies` request has been sent and not yet answered
   log : List Call := []
 deriving Repr, Inhabited
 
@@ -33,6 +34,10 @@ inductive Op where
   | sorted (r : Req)
   | deps (s : Nat)
   | available (s : Nat)
+  -- a `get_or_cache_dependencies` future that is polled once, later dropped or completed (asynchronous provider)
+  | depsStart (s : Nat)
+  | depsDrop (s : Nat)
+  | depsFinish (s : Nat)
 deriving Repr, Inhabited
 
 inductive Ans where
@@ -40,6 +45,7 @@ inductive Ans where
   | list (l : List Nat)
   | deps (d : Deps)
   | bool (b : Bool)
+  | word (w : String)
 deriving Repr, Inhabited, DecidableEq
 
 def fetchCands (U : Universe) (st : St) (n : Nat) : St :=
@@ -87,6 +93,19 @@ def step (U : Universe) (peek : Bool) (st : St) : Op → St × Ans
       ({ st with sortedUnion := u :: st.sortedUnion }, .list (reqSorted U (.union u)))
   | .deps s => (fetchDeps st s, .deps (U.deps s))
   | .available s => (st, .bool (st.fetchedDeps.contains s || st.hinted.contains s))
+  -- the first poll of the future: answered from the cache, or the request goes out and the future parks on it
+  | .depsStart s =>
+    if st.fetchedDeps.contains s then (st, .word "ready")
+    else if st.inflightDeps.contains s then (st, .word "busy")
+    else ({ st with inflightDeps := s :: st.inflightDeps, log := st.log ++ [.deps s] }, .word "pending")
+  -- the future is dropped before the provider answered: the in-flight marker goes away, nothing is cached
+  | .depsDrop s =>
+    if st.inflightDeps.contains s then ({ st with inflightDeps := st.inflightDeps.erase s }, .word "dropped") else (st, .word "none")
+  -- the provider answers and the future runs to completion: the answer is cached
+  | .depsFinish s =>
+    if st.inflightDeps.contains s then
+      ({ st with inflightDeps := st.inflightDeps.erase s, fetchedDeps := s :: st.fetchedDeps }, .word "finished")
+    else (st, .word "none")
 
 def run (U : Universe) (peek : Bool) (st : St) (ops : List Op) : St × List Ans :=
   ops.foldl (fun (acc : St × List Ans) op => let (st', a) := step U peek acc.1 op; (st', acc.2 ++ [a])) (st, [])
